@@ -441,6 +441,10 @@ pub struct P12<T> {
 thread_local! {
     static PLACEMENT: std::cell::RefCell<Option<String>> = const { std::cell::RefCell::new(None) };
 }
+/// registers this module's thread-locals on the calling thread (see `Spec.thread` == 3)
+pub fn touch_thread_locals() {
+    PLACEMENT.with(|_| ());
+}
 /// the first placement disagreement seen since the last call (and clears it)
 pub fn take_placement_disagreement() -> Option<String> {
     PLACEMENT.with(|p| p.borrow_mut().take())
@@ -1110,7 +1114,7 @@ impl DynCore for CHc128 {
     }
     fn generate(&mut self) -> Vec<u64> {
         self.0.generate(&mut self.1);
-        self.1.iter().map(|x| *x as u64).collect()
+        self.1.as_ref().iter().map(|x| *x as u64).collect()
     }
     fn boxed_clone(&self) -> Box<dyn DynCore> {
         Box::new(CHc128(self.0.clone(), Default::default()))
